@@ -226,6 +226,25 @@ def run(ctx):
     sp.collect(ctx, [(d, b, None) for d, b, _ in rtasks], res, [None] * len(rtasks), owns, "resume")
     ctx.put("stop_points_exercised", sum(len(k) for _, _, k in rtasks))
     ctx.add("traces_validated_against_impl", len(rtasks))
+    # DDP (DTensor) state layout: save / load on every simulated rank
+    from harness.drivers import C06, dist_common as dc
+    dtasks = []
+    for _ in range(10 if quick else 120):
+        t = C06.make_task(rng, W=rng.choice([2, 2, 3, 4]))
+        npar = len(t["draw"]["groups"][0]["shapes"])
+        t["masks"] = [[[True] * npar] if rng.random() < 0.8 else [[False] * npar] for _ in range(5)]     # no rank is ever starved (D5a)
+        t["k"] = rng.randrange(0, 6)
+        t["comm_params"] = rng.random() < 0.3
+        dtasks.append(t)
+    for t, r in zip(dtasks, sp.pool_map(dc.run_ddp_resume_task, dtasks)):
+        ctx.add("evaluations")
+        if "crash" in r:
+            raise tlc.TLCMachineryError("simulated-rank worker crashed:\n" + r["crash"])
+        bad = {k: v for k, v in r["bad"].items() if v}
+        if r["verdict"] or any(r["errors"].values()) or bad:
+            ctx.violation(f"DDP state layout: save/load on every rank at step {t['k']} (W={t['W']}, GS={t['GS']}): {bad or r['errors'] or r['verdict']}",
+                          {"kind": "resume_ddp"}, {"ddp_task": t})
+    ctx.add("ddp_layout_resume_runs", len(dtasks))
     # O: negative table
     hows = ["drop_entry", "drop_attribute", "unknown_param", "drop_group", "extra_group", "rename_group"]
     ntasks = []
@@ -254,12 +273,12 @@ def run(ctx):
     if rtasks:
         ctx.sample({"stop_points": rtasks[0][2], "n_actions": len(rtasks[0][1]),
                     "groups": [{k: g[k] for k in ("shapes", "kind", "ignored", "maxdim")} for g in rtasks[0][0]["groups"]]})
-    ctx.assume("serial state layout; DDP / DTensor layouts are exercised in the simulated-rank runs of C06")
+    ctx.assume("serial layout and DDP (DTensor state on simulated ranks); FSDP-family key prefixes are covered by KeysUnique-style checks in C07/C08 runs only through successful construction")
 
 
 def replay(ctx, data):
     r = data["replay"]
-    if "negative" in r:
+    if "negative" in r or "ddp_task" in r:
         return run(ctx)
     beh = r["behaviour"]
     res = [resume_task((r["draw"], beh, list(range(len(beh) + 1))))]
